@@ -221,6 +221,10 @@ func runC08(c *kit.Ctx) {
 	establisherHandoff(c)
 	regionAttributesAreImmutable(c)
 	noResponseBufferRecycling(c)
+	// an evicted region that is being established is released on every exit of its establisher: its users re-resolve
+	if est := c.P.Func("", "client", "establishRegion"); est != nil {
+		tokenTypestate(c, est, c.P.Global("", "ErrClientClosed"), c.P.Global("", "establishRegionOverride"))
+	}
 }
 
 // discoverersDetachOverlaps: shared by C08.R5 and C01.R2 (a replaced region must lose its connection,
